@@ -180,6 +180,13 @@ fn oracle(c: &CkksCase) -> Verdict {
                 has_rescale = true;
                 Some(CElem { ct, vals: x.vals.clone(), level: x.level + 1, size: x.size, scale: ns, le: nm.modswitch(x.le, x.size, ql), max_abs: x.max_abs, rescaled: true, depth: x.depth })
             }
+            CK::ModSwitch if op.flag && (0..pool.len()).any(|j| pool[j].level + 1 < nlev && pool[j].scale.log2() >= qbits(pool[j].level + 1) + 0.5) => {
+                // the scale is kept by a plain modulus switch, so a scale that fits this level but not the next one must be refused
+                let a = pick((0..pool.len()).filter(|&j| pool[j].level + 1 < nlev && pool[j].scale.log2() >= qbits(pool[j].level + 1) + 0.5).collect(), op.a).unwrap();
+                let ok = refuses(|| ev.mod_switch_to_next_new(&pool[a].ct)) && refuses(|| { let mut x = pool[a].ct.clone(); ev.mod_switch_to_next_inplace(&mut x); x });
+                if !ok { return fail_key(key, format!("{what}: scale 2^{:.1} does not fit the {}-bit modulus of the next level but the switch was computed", pool[a].scale.log2(), qbits(pool[a].level + 1))); }
+                refusals += 1; None
+            }
             CK::ModSwitch => {
                 let a = match pick((0..pool.len()).filter(|&j| pool[j].level + 1 < nlev && fits(pool[j].scale, pool[j].level + 1)).collect(), op.a) { Some(a) => a, None => continue };
                 let x = &pool[a];
